@@ -6,10 +6,10 @@
 WT="$1"; PATCH="$2"; DEMO="$3"; shift 3
 git -C "$WT" checkout -q -- . ; git -C "$WT" clean -fdq
 echo "== $(basename $PATCH) on $WT"
-PYTHONPATH=$WT /venv/bin/python "$DEMO" >/dev/null 2>&1; echo "demo on original: exit $?"
+timeout 120 env PYTHONPATH=$WT /venv/bin/python "$DEMO" >/dev/null 2>&1; echo "demo on original: exit $?"
 git -C "$WT" apply "$PATCH" || { echo "PATCH DOES NOT APPLY"; exit 2; }
 ( cd "$WT" && PYTHONPATH=$WT /venv/bin/python -m pytest -q -p no:cacheprovider 2>&1 | tail -1 )
-PYTHONPATH=$WT /venv/bin/python "$DEMO" >/dev/null 2>&1; echo "demo on mutant: exit $?"
+timeout 120 env PYTHONPATH=$WT /venv/bin/python "$DEMO" >/dev/null 2>&1; echo "demo on mutant: exit $?"
 SCR=$(mktemp -d /tmp/mutevid.XXXX)
 for P in "$@"; do
   out=$(cd /verif && VERIF_REPO=$WT VERIF_EVID=$SCR ./check $P --tier quick 2>&1)
